@@ -19,7 +19,7 @@ func TestC20(t *testing.T) {
 	mon.Main(t, mon.Check{
 		ID:    "C20",
 		Level: "exploration",
-		Rule:  "a real gbn.TimeoutManager is driven directly, inside a virtual-time bubble, with PRNG histories of 50-2000 Sent/Received events over SYN, SYNACK, DATA(seq), ACK(seq), NACK, FIN with arbitrary sequence numbers (ACKs for never-sent, resent and reused numbers included) and inter-event gaps from 0 to 1 h; multipliers 1..20, update frequencies 1..200, boost 1%..300%, static and adaptive mode, handshake timeouts 0.2-5 s. After every event GetResendTimeout/GetHandshakeTimeout are compared with a shadow derived from the statement: adaptive value >= 1 s; it is recomputed only at Received(ACK k) whose latest Sent(DATA k) was not a resend and was not consumed yet (and the update frequency permits), or at Received(SYN/SYNACK) with an unresent pending SYN, and then equals max(1s, multiplier*RTT); it increases only at Sent(DATA, resent) by exactly boost%*base and at most once per base interval; static mode: both timeouts constant. One case in ten instead samples the timeouts of live connections of the random fault engine at every packet they transmit (floor in adaptive mode, constancy in static mode). Non-trivial = history with at least one fresh sample and one boost; distinct = hash of the event-kind sequence.",
+		Rule:  "a real gbn.TimeoutManager is driven directly, inside a virtual-time bubble, with PRNG histories of 50-2000 Sent/Received events over SYN, SYNACK, DATA(seq), ACK(seq), NACK, FIN with arbitrary sequence numbers (ACKs for never-sent, resent and reused numbers included) and inter-event gaps from 0 to 1 h; multipliers 1..20, update frequencies 1..200, boost 1%..300% plus out-of-range values (0, negative: ignored by the option, the default 50% stays; 0.1%, 1000%, 5000%), static and adaptive mode, handshake timeouts 0.2-5 s. After every event GetResendTimeout/GetHandshakeTimeout are compared with a shadow derived from the statement: adaptive value >= 1 s; it is recomputed only at Received(ACK k) whose latest Sent(DATA k) was not a resend and was not consumed yet (and the update frequency permits), or at Received(SYN/SYNACK) with an unresent pending SYN, and then equals max(1s, multiplier*RTT); it increases only at Sent(DATA, resent) by exactly boost%*base and at most once per base interval; static mode: both timeouts constant. One case in ten instead samples the timeouts of live connections of the random fault engine at every packet they transmit (floor in adaptive mode, constancy in static mode). Non-trivial = history with at least one fresh sample and one boost; distinct = hash of the event-kind sequence.",
 		Assumptions: []string{
 			"the shadow compares durations with a relative tolerance of 1e-5 (the implementation multiplies in float32)",
 		},
@@ -120,6 +120,17 @@ func runC20(c *mon.Case) {
 		freq = 1 + rng.Intn(5)
 	}
 	boost := float32(1+rng.Intn(300)) / 100
+	cfgBoost := boost
+	if c.Idx%8 == 3 {
+		// out-of-range configuration values: the option ignores a boost
+		// that is not positive and the default of 50% stays in force
+		// (a timeout may never shrink through a "boost")
+		cfgBoost = []float32{0, -0.01, -0.5, -1, -3}[rng.Intn(5)]
+		boost = 0.5
+	} else if c.Idx%8 == 5 {
+		boost = []float32{0.001, 10, 50}[rng.Intn(3)]
+		cfgBoost = boost
+	}
 	hsT := time.Duration(200+rng.Intn(4800)) * time.Millisecond
 	staticT := time.Duration(100+rng.Intn(9000)) * time.Millisecond
 	nEv := 50 + rng.Intn(1950)
@@ -131,12 +142,12 @@ func runC20(c *mon.Case) {
 
 	opts := []gbn.TimeoutOptions{
 		gbn.WithResendMultiplier(mult), gbn.WithTimeoutUpdateFrequency(freq),
-		gbn.WithBoostPercent(boost), gbn.WithHandshakeTimeout(hsT),
+		gbn.WithBoostPercent(cfgBoost), gbn.WithHandshakeTimeout(hsT),
 	}
 	if static {
 		opts = append(opts, gbn.WithStaticResendTimeout(staticT))
 	}
-	rep := map[string]any{"static": static, "multiplier": mult, "frequency": freq, "boost": boost, "handshake_timeout": hsT.String(), "events": nEv}
+	rep := map[string]any{"static": static, "multiplier": mult, "frequency": freq, "boost_configured": cfgBoost, "boost_effective": boost, "handshake_timeout": hsT.String(), "events": nEv}
 
 	var hist []string
 	samples, boosts := 0, 0
